@@ -441,7 +441,18 @@ class TreeGen:
             return [self.node(depth + 1, budget) for _ in range(m)]
 
         if k in ('tuple', 'list'):
-            return D(k, kids(n))
+            ks = kids(n)
+            # now and then a second dict with the SAME key set in another insertion order (and sometimes another dict kind) as a sibling:
+            # anything keyed by "the keys of a node" (caches, shared key lists) must still keep the two nodes apart
+            cands = [c for c in ks if c.k in DICTS and len(c.items) >= 2]
+            if cands and rng.random() < 0.25:
+                twin = rng.choice(cands).copy()
+                rng.shuffle(twin.items)
+                if rng.random() < 0.3:
+                    twin.k = rng.choice(DICTS)
+                    twin.meta = rng.choice(U.FACTORIES) if twin.k == 'ddict' else None
+                ks.insert(rng.randrange(len(ks) + 1), twin)
+            return D(k, ks)
         if k == 'deque':
             maxlen = rng.choice([None, None, n, n + 2, 300, 1000]) if n else rng.choice([None, 0, 3, 4096])
             return D('deque', kids(n), meta=maxlen)
